@@ -321,6 +321,9 @@ pub struct PPlan {
     /// Update.key indexes c07::NAMES (0,1 counters; 2 gauge; 3,4 histograms); Observe = render
     pub ops: Vec<Op>,
     pub global_buckets: bool,
+    /// 0 none, 1 [env=e], 2 [l=glob, env=e] (the second collides with the label of the labelled keys)
+    #[serde(default)]
+    pub global_labels: u8,
 }
 
 pub struct C12PromIdle;
@@ -348,7 +351,7 @@ impl Scenario for C12PromIdle {
                 _ => Op::Observe { kind: 0 },
             })
             .collect();
-        PPlan { timeout_ms: if r.chance(120) { None } else { Some(r.range(1, 50)) }, mask: *r.pick(&[7u8, 7, 7, 1, 2, 4, 3, 5, 6, 0]), ops, global_buckets: r.chance(300) }
+        PPlan { timeout_ms: if r.chance(120) { None } else { Some(r.range(1, 50)) }, mask: *r.pick(&[7u8, 7, 7, 1, 2, 4, 3, 5, 6, 0]), ops, global_buckets: r.chance(300), global_labels: *r.pick(&[0u8, 0, 1, 2]) }
     }
     fn execute(&self, plan: &PPlan, sched: &SchedSpec) -> RunReport {
         let log: Arc<Mutex<Vec<String>>> = Arc::new(Mutex::new(vec![]));
@@ -357,7 +360,12 @@ impl Scenario for C12PromIdle {
         let (l2, b2) = (log.clone(), bad.clone());
         let sim = simulate(sched, 200_000, move || {
             let (clock, mock) = quanta::Clock::mock();
-            let cfg = c07::Config { global_labels: vec![], global_buckets: p.global_buckets, custom_quantiles: false, unit_suffix: false };
+            let gl: Vec<(String, String)> = match p.global_labels {
+                0 => vec![],
+                1 => vec![("env".to_string(), "e".to_string())],
+                _ => vec![("l".to_string(), "glob".to_string()), ("env".to_string(), "e".to_string())],
+            };
+            let cfg = c07::Config { global_labels: gl, global_buckets: p.global_buckets, custom_quantiles: false, unit_suffix: false };
             let idle = p.timeout_ms.map(|t| (mask_of(p.mask), Duration::from_millis(t)));
             let (rec, handle) = c07::build(&cfg, clock.clone(), idle);
             let timeout = p.timeout_ms.map(|t| t * 1_000_000);
@@ -500,6 +508,11 @@ impl Scenario for C12PromIdle {
         if p.global_buckets {
             let mut q = p.clone();
             q.global_buckets = false;
+            out.push(q);
+        }
+        if p.global_labels > 0 {
+            let mut q = p.clone();
+            q.global_labels -= 1;
             out.push(q);
         }
         out
